@@ -113,6 +113,92 @@ fn main() {
       println!("strbif cases={} failures={}", cases, failures.len());
       for f in failures { println!("FAIL {}", f); }
     }
+    Some("scopes") => {
+      // BOUNDED stand-in (not a proof): every stack of up to <max> contexts in which each context either binds `x` (to its
+      // level) and/or `y z` or not: Scope::get_entry and Scope::search_deep must return the innermost binding, and
+      // a lookup must not change the scope's rendering.
+      let max: u32 = args.get(2).and_then(|s| s.parse().ok()).unwrap_or(4);
+      let mut cases = 0usize;
+      let mut failures: Vec<String> = vec![];
+      let names: Vec<dmntk_feel::Name> = vec!["x".into(), dmntk_feel::Name::new(&["y", "z"])];
+      for depth in 0..=max {
+        for mask in 0..(1u32 << (2 * depth)) {
+          let scope = Scope::new();
+          let mut expected: Vec<Option<u32>> = vec![None, None];
+          for level in 0..depth {
+            let mut ctx = dmntk_feel::context::FeelContext::default();
+            for (k, n) in names.iter().enumerate() {
+              if mask & (1 << (2 * level + k as u32)) != 0 { ctx.set_entry(n, Value::Number(FeelNumber::from_i128((10 * level + k as u32) as i128))); expected[k] = Some(10 * level + k as u32); }
+            }
+            scope.push(ctx);
+          }
+          let before = scope.to_string();
+          for (k, n) in names.iter().enumerate() {
+            let exp = expected[k].map(|v| Value::Number(FeelNumber::from_i128(v as i128)).to_string());
+            let got = scope.get_entry(n).map(|v| v.to_string());
+            let got_deep = scope.search_deep(&[n.clone()]).map(|v| v.to_string());
+            cases += 2;
+            if got != exp && failures.len() < 5 { failures.push(format!("scope {} get_entry({}) => {:?} (expected the innermost binding {:?})", before, n, got, exp)); }
+            if got_deep != exp && failures.len() < 5 { failures.push(format!("scope {} search_deep([{}]) => {:?} (expected the innermost binding {:?})", before, n, got_deep, exp)); }
+          }
+          if scope.to_string() != before && failures.len() < 5 { failures.push(format!("scope {} changed by lookups into {}", before, scope)); }
+        }
+      }
+      println!("scopes cases={} failures={}", cases, failures.len());
+      for f in failures { println!("FAIL {}", f); }
+    }
+    Some("names") => {
+      // BOUNDED stand-in (not a proof) for the string half of C10: every name made of up to <max> parts (words a, b, ż1 and
+      // the additional symbols), bound programmatically (Name::new), must resolve to its value when written canonically
+      // and with single spaces between all parts, alone and followed by ` + 1`, with and without its words bound too.
+      let max: usize = args.get(2).and_then(|s| s.parse().ok()).unwrap_or(3);
+      let words = ["a", "b", "ż1"];
+      let symbols = ["+", "-", "/", "*", ".", "'"];
+      let mut lists: Vec<Vec<&str>> = words.iter().map(|w| vec![*w]).collect();
+      let mut frontier = lists.clone();
+      for _ in 1..max {
+        let mut next = vec![];
+        for l in &frontier { for x in words.iter().chain(symbols.iter()) { let mut t = l.clone(); t.push(*x); next.push(t); } }
+        lists.extend(next.iter().cloned());
+        frontier = next;
+      }
+      let mut cases = 0usize;
+      let mut failures: Vec<String> = vec![];
+      let mut nfail = 0usize;
+      let is_sym = |x: &str| symbols.contains(&x);
+      for parts in &lists {
+        // the property's domain: words separated by spaces or joined by ONE additional symbol
+        if is_sym(parts[parts.len() - 1]) || parts.windows(2).any(|w| is_sym(w[0]) && is_sym(w[1])) { continue; }
+        let name = dmntk_feel::Name::new(parts);
+        let canonical = name.to_string();
+        let spaced = parts.join(" ");
+        for with_words in [false, true] {
+          for text in [canonical.clone(), spaced.clone()] {
+            for (suffix, expected) in [("", "10"), (" + 1", "11")] {
+              let input = format!("{}{}", text, suffix);
+              let (n2, i2, p2) = (name.clone(), input.clone(), parts.clone());
+              let r = std::panic::catch_unwind(move || {
+                let scope = Scope::default();
+                if with_words { for w in ["a", "b", "ż1"] { scope.set_entry(&w.into(), Value::Number(FeelNumber::from_i128(2))); } }
+                let _ = p2;
+                scope.set_entry(&n2, Value::Number(FeelNumber::from_i128(10)));
+                match dmntk_feel_parser::parse_expression(&scope, &i2, false) {
+                  Ok(node) => match dmntk_feel_evaluator::prepare(&node) { Ok(ev) => format!("{}", ev(&scope)), Err(e) => format!("BUILD-ERROR {}", e) },
+                  Err(e) => format!("PARSE-ERROR {}", e),
+                }
+              }).unwrap_or("PANIC".to_string());
+              cases += 1;
+              if r != expected {
+                nfail += 1;
+                if failures.len() < 5 { failures.push(format!("name `{}` bound to 10{}; input `{}` => {} (expected {})", canonical, if with_words { " (a, b, ż1 bound to 2)" } else { "" }, input, r, expected)); }
+              }
+            }
+          }
+        }
+      }
+      println!("names cases={} failures={}", cases, nfail);
+      for f in failures { println!("FAIL {}", f); }
+    }
     Some("model") => {
       // model <xml-file> <invocable-name> <feel-context-text>: parse the model, build its evaluator, evaluate the invocable
       let xml = std::fs::read_to_string(&args[2]).unwrap_or_default();
